@@ -28,7 +28,7 @@ type AxiomSet struct {
 func (vc *VC) CompileAxioms(pkg string) (*AxiomSet, error) {
 	as := &AxiomSet{Rounds: 2}
 	for _, ax := range vc.P.Contracts.Axioms {
-		env := &specEnv{vc: vc, pkg: pkg, bound: map[string]TV{}}
+		env := &specEnv{vc: vc, pkg: ax.Pkg, bound: map[string]TV{}}
 		ca := compiledAxiom{name: ax.Name}
 		for _, v := range ax.Vars {
 			s, T, err := env.specSort(v.Type)
